@@ -191,6 +191,46 @@ def frac_list(s):
 
 
 # ---------------------------------------------------------------------------------------------------
+# ---- representations of option VALUES accepted by the clean tree (probed): python scalars, numpy scalars, 0-dim torch
+# tensors.  (Rejected by the clean tree, hence not used: top_k as python float or bool — torch.topk raises TypeError.)
+def _np():
+    import numpy as np
+
+    return np
+
+
+INT_FORMS = {
+    "int": int,
+    "np.int64": lambda v: _np().int64(v),
+    "np.int32": lambda v: _np().int32(v),
+    "tensor.int64": lambda v: torch.tensor(int(v), dtype=torch.int64),
+    "tensor.int32": lambda v: torch.tensor(int(v), dtype=torch.int32),
+}
+FLOAT_FORMS = {
+    "float": float,
+    "np.float64": lambda v: _np().float64(v),
+    "np.float32": lambda v: _np().float32(v),          # used with dyadic values only (exactly representable)
+    "tensor.float64": lambda v: torch.tensor(float(v), dtype=torch.float64),
+    "tensor.float32": lambda v: torch.tensor(float(v), dtype=torch.float32),
+}
+
+
+def dyadic(v):
+    return float(v) == float(torch.tensor(float(v), dtype=torch.float32))
+
+
+def pick_forms(rng, temp, top_p, C):
+    """a random representation for each option (float32 forms only for values exactly representable in float32)"""
+    def ff(v):
+        names = list(FLOAT_FORMS) if dyadic(v) else ["float", "np.float64", "tensor.float64"]
+        return rng.choice(names)
+    return {"top_k": rng.choice(list(INT_FORMS)), "temperature": ff(temp), "top_p": ff(top_p), "tanh_clipping": ff(C)}
+
+
+def same_tensor(a, b):
+    return a.shape == b.shape and torch.equal(torch.nan_to_num(a, nan=12345.0, neginf=-1e30), torch.nan_to_num(b, nan=12345.0, neginf=-1e30))
+
+
 def near_threshold(qrow, top_p, margin=None):
     """Is some cumulative probability of the ascending-sorted row within MARGIN of `1 - top_p`?  (Then the
     float32 comparison `cum <= 1 - top_p` may go either way and the support is not determined.)"""
@@ -206,7 +246,7 @@ def near_threshold(qrow, top_p, margin=None):
 
 
 def run_config(ctx, rows_m, masks, T, k, p, C, tag, compare_model=True, raw_logits=None, mask_logits=True,
-               shifts=(3.0, -7.5, 100.0, 0.25), tol=TOL):
+               shifts=(3.0, -7.5, 100.0, 0.25), tol=TOL, forms=None):
     """One batched call of the real code for one configuration; rows = (exponents, mask).
     `mask_logits=False`: the real code is called with `mask=None, mask_logits=False` (the caller passes
     all-True masks, which is what that path must be equivalent to)."""
@@ -222,6 +262,13 @@ def run_config(ctx, rows_m, masks, T, k, p, C, tag, compare_model=True, raw_logi
         kw["mask_logits"] = False
         mask = None
         ctx.count("configs with mask_logits=False (mask=None)")
+    top_p_py, kw_py = top_p, dict(kw)
+    if forms:  # the same option values in another representation (numpy scalar / 0-dim tensor)
+        kw["top_k"] = INT_FORMS[forms["top_k"]](k)
+        kw["temperature"] = FLOAT_FORMS[forms["temperature"]](temp)
+        kw["tanh_clipping"] = FLOAT_FORMS[forms["tanh_clipping"]](C)
+        top_p = FLOAT_FORMS[forms["top_p"]](top_p)
+        ctx.count("option forms: " + ",".join(f"{o}={f}" for o, f in sorted(forms.items()) if f not in ("int", "float")) or "python")
     try:
         with Recorder() as rec:
             lp = dec.process_logits(logits.clone(), mask, top_p=top_p, **kw)
@@ -230,6 +277,18 @@ def run_config(ctx, rows_m, masks, T, k, p, C, tag, compare_model=True, raw_logi
                       {"tag": tag, "n": n, "exponents_after_temperature": rows_m[0], "mask": [int(x) for x in masks[0]],
                        "temperature": temp, "top_k": k, "top_p": top_p, "tanh_clipping": C})
         return None
+    if forms:
+        lp_py = dec.process_logits(logits.clone(), mask, top_p=top_p_py, **kw_py)
+        if not same_tensor(lp, lp_py):
+            bad = [b for b in range(B) if not same_tensor(lp[b], lp_py[b])][:1] or [0]
+            b0 = bad[0]
+            ctx.violation("option-form", "process_logits depends on the REPRESENTATION of an option value (python scalar vs numpy "
+                          "scalar / 0-dim tensor of the same value)",
+                          {"forms": forms, "tag": tag, "n": n, "mask": [int(x) for x in masks[b0]], "temperature": temp, "top_k": k,
+                           "top_p": top_p_py, "tanh_clipping": C, "logits": logits[b0].tolist(),
+                           "logprobs_with_forms": [str(v) for v in lp[b0].tolist()],
+                           "logprobs_python_scalars": [str(v) for v in lp_py[b0].tolist()]})
+        top_p = top_p_py  # arithmetic below uses the python value
     kth_idx = rec.topk[0][1][..., -1].tolist() if (k > 0 and len(rec.topk) == 1) else None
     sig = rec.sort[0][0][1].tolist() if (len(rec.sort) == 1 and not rec.sort[0][1]) else None
     if k > 0 and kth_idx is None:
@@ -396,7 +455,8 @@ def corr_process(ctx):
                 for _ in range(reps):
                     rows.append(gen_exponents(rng, n, T, C, rng.choice(KINDS)))
                     mk.append(m)
-            run_config(ctx, rows, mk, T, k, p, C, "exhaustive-masks")
+            run_config(ctx, rows, mk, T, k, p, C, "exhaustive-masks",
+                       forms=pick_forms(rng, T[0] / T[1], p[0] / p[1], C) if rng.random() < 0.3 else None)
             ctx.count("configs exhaustive-masks")
     # random, n ≤ 100
     for it in range(ctx.budget(300, 4000)):
@@ -413,7 +473,8 @@ def corr_process(ctx):
                 want = max(1, min(n, k - (b % 2)))
                 idx = rng.sample(range(n), want)
                 mk[b] = [i in idx for i in range(n)]
-        run_config(ctx, rows, mk, T, k, p, C, "random")
+        run_config(ctx, rows, mk, T, k, p, C, "random",
+                   forms=pick_forms(rng, T[0] / T[1], p[0] / p[1], C) if it % 2 else None)
         ctx.count("configs random")
     # float-exact top-p ties at the threshold: uniform rows, p = 1/2
     for n in (2, 4, 8):
@@ -458,7 +519,8 @@ def corr_process(ctx):
         T, p, C = rng.choice(TEMPS), rng.choice(PS), rng.choice(CLIPS)
         k = rng.choice([0, 1, 2, n - 1, n, n + 1, rng.randint(0, n + 2)])
         rows = [gen_exponents(rng, n, T, C, rng.choice(KINDS)) for _ in range(4)]
-        run_config(ctx, rows, [[True] * n] * 4, T, max(k, 0), p, C, "mask_logits=False", mask_logits=False)
+        run_config(ctx, rows, [[True] * n] * 4, T, max(k, 0), p, C, "mask_logits=False", mask_logits=False,
+                   forms=pick_forms(rng, T[0] / T[1], p[0] / p[1], C) if it % 3 == 0 else None)
     # generic stream: arbitrary float logits, non-dyadic temperatures, arbitrary top_p / clipping constants;
     # spec oracle on the real outcomes only (scores = order of the clipped float32 logits)
     for it in range(ctx.budget(250, 2500)):
@@ -494,7 +556,8 @@ def corr_process(ctx):
         if it % 7 == 0:
             mk, ml = [[True] * n] * B, False
         run_config(ctx, scores, mk, T, max(k, 0), p, C, "generic-floats", compare_model=False, raw_logits=raw,
-                   mask_logits=ml, shifts=(3.0, -7.5, 0.25))
+                   mask_logits=ml, shifts=(3.0, -7.5, 0.25),
+                   forms=pick_forms(rng, T[0] / T[1], p[0] / p[1], C) if it % 3 == 1 else None)
         ctx.count("configs generic-floats (spec only)")
 
 
@@ -695,7 +758,13 @@ def corr_step(ctx):
             mk = [[True] * n for _ in range(B)]
             ctx.count("step with mask_logits=False")
         for name, cls in (("greedy", dec.Greedy), ("sampling", dec.Sampling)):
-            strat = cls(temperature=T[0] / T[1], top_p=p[0] / p[1], top_k=k, tanh_clipping=float(C), mask_logits=ml)
+            fm = pick_forms(rng, T[0] / T[1], p[0] / p[1], C) if it % 2 else None
+            if fm:
+                ctx.count("step with option forms (numpy scalars / 0-dim tensors)")
+                strat = cls(temperature=FLOAT_FORMS[fm["temperature"]](T[0] / T[1]), top_p=FLOAT_FORMS[fm["top_p"]](p[0] / p[1]),
+                            top_k=INT_FORMS[fm["top_k"]](k), tanh_clipping=FLOAT_FORMS[fm["tanh_clipping"]](C), mask_logits=ml)
+            else:
+                strat = cls(temperature=T[0] / T[1], top_p=p[0] / p[1], top_k=k, tanh_clipping=float(C), mask_logits=ml)
             mask = given_mask
             td = TensorDict({}, batch_size=[B])
             torch.manual_seed(rng.randrange(1 << 30))
@@ -703,6 +772,16 @@ def corr_step(ctx):
                 td = strat.step(logits.clone(), mask, td)
             act = td["action"].tolist()
             lpa = strat.logprobs[-1].tolist()
+            if fm:  # judged on the real outcome: the representation of the option values must not matter
+                lp_py = dec.process_logits(logits.clone(), mask if ml else None, temperature=T[0] / T[1], top_p=p[0] / p[1],
+                                           top_k=k, tanh_clipping=float(C), mask_logits=ml)
+                for b in range(B):
+                    if not same_tensor(strat.logprobs[-1][b], lp_py[b, act[b]]):
+                        ctx.violation("option-form:step", f"{name}.step depends on the representation of an option value",
+                                      {"forms": fm, "strategy": name, "n": n, "mask": [int(x) for x in mk[b]], "temperature": T[0] / T[1],
+                                       "top_k": k, "top_p": p[0] / p[1], "tanh_clipping": C, "logits": logits[b].tolist(),
+                                       "action": act[b], "logprob_with_forms": lpa[b], "logprob_python_scalars": lp_py[b, act[b]].item(),
+                                       "support_python_scalars": rl.mask_str(torch.isfinite(lp_py[b]))})
             kth_idx = rec.topk[0][1][..., -1].tolist() if (k > 0 and len(rec.topk) == 1) else None
             sig = rec.sort[0][0][1].tolist() if (len(rec.sort) == 1 and not rec.sort[0][1]) else None
             lines = [model_line(rows[b], mk[b] if ml else given_mask[b].tolist(), T, k, p, C,
@@ -813,6 +892,69 @@ def corr_book(ctx):
                 ctx.disagreement("strategy bookkeeping (actions / gathered entries)", {"model": rep, **wit})
 
 
+def corr_policy_forms(ctx):
+    """The options reach `process_logits` through a policy call (`policy(td, env, decode_type=…, top_k=…, …)` →
+    `get_decoding_strategy(**config)` → `DecodingStrategy.step`).  Every `process_logits` call made inside is
+    intercepted; its output must be bit-identical to the call with the same option VALUES as python scalars, and
+    the top-k clause (at most k kept, ties aside) is judged on it."""
+    dec = _dec()
+    rng = ctx.rng
+    try:
+        from rl4co.envs import TSPEnv
+        from rl4co.models.zoo.am import AttentionModelPolicy
+    except Exception as e:  # the zoo is not importable: nothing to drive
+        ctx.note(f"policy path not driven: {type(e).__name__}")
+        return
+    torch.manual_seed(rng.randrange(1 << 30))
+    env = TSPEnv(generator_params=dict(num_loc=7))
+    policy = AttentionModelPolicy(env_name="tsp", embed_dim=16, num_encoder_layers=1, num_heads=2).eval()
+    orig = dec.process_logits
+    for it in range(ctx.budget(6, 40)):
+        k = rng.choice([1, 2, 3])
+        temp, top_p, C = rng.choice([0.5, 1.0, 2.0]), rng.choice([0.0, 0.5, 0.75]), rng.choice([0.0, 8.0])
+        fm = pick_forms(rng, temp, top_p, C)
+        if fm["top_k"] == "int":
+            fm["top_k"] = rng.choice(["np.int64", "tensor.int64", "tensor.int32", "np.int32"])
+        calls = []
+
+        def spy(logits, mask=None, **kw):
+            out = orig(logits.clone(), mask, **kw)
+            calls.append((logits.clone(), None if mask is None else mask.clone(), dict(kw), out.clone()))
+            return orig(logits, mask, **kw)
+
+        dec.process_logits = spy
+        try:
+            td = env.reset(batch_size=[3])
+            with torch.no_grad():
+                policy(td, env, phase="test", decode_type=rng.choice(["sampling", "greedy"]),
+                       top_k=INT_FORMS[fm["top_k"]](k), top_p=FLOAT_FORMS[fm["top_p"]](top_p),
+                       temperature=FLOAT_FORMS[fm["temperature"]](temp), tanh_clipping=FLOAT_FORMS[fm["tanh_clipping"]](C))
+        finally:
+            dec.process_logits = orig
+        ctx.count("policy calls with option forms")
+        for (lg, mk, kw, out) in calls:
+            ctx.case(("policy-form", it, len(calls)))
+            kwp = dict(kw)
+            kwp.update(top_k=k, top_p=top_p, temperature=temp, tanh_clipping=C)
+            ref = orig(lg.clone(), mk, **kwp)
+            wit = {"forms": fm, "top_k": k, "top_p": top_p, "temperature": temp, "tanh_clipping": C,
+                   "logits": lg[0].tolist(), "mask": None if mk is None else [int(x) for x in mk[0].tolist()],
+                   "support_with_forms": rl.mask_str(torch.isfinite(out[0])), "support_python_scalars": rl.mask_str(torch.isfinite(ref[0]))}
+            if not same_tensor(out, ref):
+                ctx.violation("option-form:policy", "a policy call depends on the representation of an option value", wit)
+                break
+            # top-k clause on the real outcome: kept entries strictly above the lowest kept logit number fewer than k
+            z = (torch.tanh(lg) * C if C else lg) / temp
+            for b in range(out.shape[0]):
+                kept = torch.isfinite(out[b])
+                if kept.any():
+                    lo = z[b][kept].min()
+                    if int((z[b][kept] > lo).sum()) >= k:
+                        ctx.violation("spec-topkcard", "property clause fails on the real code: top-k keeps at most k (ties aside)",
+                                      {"row": b, **wit})
+                        break
+
+
 def probe_overflow(ctx):
     """Scope note: when `logits / temperature` is not representable in the logits' dtype the quotient is ±inf and
     log_softmax returns NaN (float16 logits 1e4 with T = 0.1; float32 logits 3e38 with T = 0.5)."""
@@ -844,7 +986,8 @@ def probe_float(ctx):
             ks = [[rng.randint(-4, 4) for _ in range(n)] for _ in range(B)]
             mk = [gen_mask(rng, n, ["all", "random", "allbut1", "single", "random", "all"][b]) for b in range(B)]
             raw = torch.tensor([[v * LN2 for v in r] for r in ks], dtype=torch.float64).to(torch.float32)
-            run_config(ctx, ks, mk, T, k, (1, pd), 0, f"tiny-top-p", compare_model=False, raw_logits=raw)
+            run_config(ctx, ks, mk, T, k, (1, pd), 0, f"tiny-top-p", compare_model=False, raw_logits=raw,
+                       forms=pick_forms(rng, T[0] / T[1], 1 / pd, 0) if it % 2 else None)
             ctx.count(f"float probe rows top_p=1e-{len(str(pd)) - 1}" if str(pd)[0] == "1" else "float probe rows top_p=3.3e-8", B)
             for _ in range(B):
                 ctx.case(("probe", pd, it, _))
@@ -856,6 +999,7 @@ def run(ctx):
     corr_select(ctx)
     corr_step(ctx)
     corr_book(ctx)
+    corr_policy_forms(ctx)
     probe_float(ctx)
     probe_overflow(ctx)
 
@@ -870,6 +1014,10 @@ TOKEN_NOTE = ("translator tie: 12 AST probes (harness/probes/logits.py) regenera
 ORACLE_NOTE = ("torch.topk / sort / argmax tie-breaking and torch.multinomial are oracle inputs: the model only requires "
                "them to be valid (k-th largest index, ascending sorting permutation, maximiser, positive probability); "
                "what torch returned is recorded through a module proxy and validated by the model on every row")
+FORMS_NOTE = ("option values are passed as python scalars, numpy scalars (int64/int32, float64/float32) and 0-dim torch tensors "
+              "(int64/int32, float64/float32) to process_logits, to the strategies and through a policy call; forms the clean "
+              "tree itself rejects are not used: top_k as python float or bool (torch.topk raises TypeError); float32 forms only "
+              "for values exactly representable in float32")
 SCOPE_NOTE = ("mask_logits=False (mask=None) is modelled as an all-feasible mask (processLogitsOpt, nomask_sound) and driven through "
               "process_logits and the strategies' step")
 
@@ -888,6 +1036,7 @@ THEOREMS = [
     Theorem(T + "topp_tight", "proved", "top_p > 0: the actions strictly more likely than a kept action carry mass < top_p (nothing superfluous is kept, ties aside)"),
     Theorem(T + "runStages_canonical", "proved", "translator tie: with the extracted statement order, process_logits is clip → mask → /T → top-k → top-p (→ softmax)"),
     Theorem(T + "stageOrder_eq", "proved", "obligation on the extracted `logitsStageOrder`"),
+    Theorem(T + "guardPlain_eq", "proved", "obligation on the extracted `logitsStageGuards`: the guards of the clip / top-k / top-p stages test the VALUE of the option only (no isinstance / type test)"),
     Theorem(T + "topkOn_eq", "proved", "obligation on the extracted `if top_k > 0`"),
     Theorem(T + "kEff_eq", "proved", "obligation on the extracted `min(top_k, n)` clamp and `torch.topk(logits, top_k)[0][..., -1]` (the threshold is the min(k,n)-th largest)"),
     Theorem(T + "cmpO_topk", "proved", "obligation on the extracted top-k comparison `logits < kth`"),
@@ -941,7 +1090,7 @@ register(Unit("C10", "logits", run, drivers=["drv_logits"],
               lean_modules=["Rl4co.Props.C10.Logits", "Rl4co.Props.C10.LogitsReal", "Rl4co.Props.C10.LogitsExists", "Rl4co.Props.C10.LogitsTight", "Rl4co.Props.C10.LogitsOpt", "Rl4co.Props.C10.LogitsGenerated",
                             "Rl4co.Props.C10.LogitsSpecSanity", "Rl4co.Decode.LogitsStep"],
               theorems=THEOREMS,
-              assumptions=[MODEL_NOTE, ORACLE_NOTE, SCOPE_NOTE, TOKEN_NOTE,
+              assumptions=[MODEL_NOTE, ORACLE_NOTE, SCOPE_NOTE, TOKEN_NOTE, FORMS_NOTE,
                            "the driver instantiates the model with rationals and the weight 2^y on integer logits "
                            "(the real code is fed y·ln 2); the theorems are stated for every ordered field and exp-like weight, "
                            "instantiated with Real.exp",
